@@ -3,7 +3,7 @@ TransportMixIn.emit_additional_headers / send_content (bounded; the recency clau
 import itertools
 import random
 
-NAMES = ["X-A", "x-a", "X-a", "Content-Length", "content-type", "User-Agent", "user-agent"]
+NAMES = ["X-A", "x-a", "X-a", "Content-Length", "content-type", "User-Agent", "user-agent", "Accept-Encoding", "Authorization"]
 VALUES = [1, "v", None, 0, 2.5, True, ""]        # string and non-string values, falsy ones included
 READONLY = ("content-length", "content-type")
 
